@@ -16,6 +16,40 @@ CHECKS = {
             "encoder+decoder change breaks them); per-packet round-trip/layout theorems as listed in the evidence. "
             "Executable codec models (v3, v5) tied to the crate by differential runs of encoder and decoder, "
             "incl. frames from an independent spec encoder with shuffled properties.", "section 5, C01"),
+    "C02": ("Coq theorems (Props/C02.v, 41) on executable v3/v5 decoder models for ALL byte strings: decoding is total "
+            "(no panic site reachable: every length subtraction is checked), every byte string gets exactly one of "
+            "packet / need-more / error, malformed classes (reserved flags, bad remaining length, truncated fields, "
+            "invalid UTF-8, duplicate properties, zero ids) are rejected with an error and never yield a packet, the "
+            "size limit is enforced before the body is read. Decoder models tied to the crate's codecs on valid, "
+            "mutated and random byte strings (debug and release), plus spec-level clauses checked on the "
+            "implementation's own answers.", "section 5, C02"),
+    "C08": ("Coq theorems (Props/C08.v, 9): for every sequence of encoder operations (packets, publishes with full / "
+            "partial / no inline payload, payload chunks; succeeding or failing) issued under the sink's guard the "
+            "bytes written are a concatenation of complete frames followed by at most one open frame missing exactly "
+            "the payload bytes still owed (generic Section instantiated with the v3 and v5 encoder models); a failing "
+            "operation appends nothing. Tied to the crate by encoder op sequences and by sink-level streaming runs "
+            "whose peer-side byte stream is re-parsed.", "section 5, C08"),
+    "C10": ("Coq theorems (Props/C10.v, 14 + Props/C10pl.v, 11): the decoder's item sequence is the same for every "
+            "fragmentation of a byte stream (induction over cut sets, v3 and v5), payload pieces add up to the "
+            "declared size with exactly one final piece and respect min-chunk; and, connection level, Payload::read / "
+            "read_all over the bstream channel return exactly the bytes fed, in order, for every feed/poll/eof/error "
+            "schedule, with no lost wake-up. Tied to the crate by streams x cut sets and 1.2*10^5 payload schedules "
+            "per quick run. Partial: the sender-side pause of the dispatcher (payload buffer full) is not compared.",
+            "section 5, C10"),
+    "C05": ("Coq theorems (Props/C05.v, 7) about an executable model of the v3/v5 sink (send window, waiters, "
+            "back-pressure) for every operation list, both versions and roles: the in-flight queue never exceeds the "
+            "limit, packets written minus finally acknowledged never exceeds it, an entry is appended only by a step "
+            "that started with room and back-pressure off. Tied to the real MqttSink by exhaustive short and random "
+            "operation lists over the in-memory transport and a peer's-view oracle.", "section 5, C05"),
+    "C06": ("Coq theorems (Props/C06.v, 11) on the sink model: outstanding ids pairwise distinct and non-zero, an "
+            "explicit id in flight is refused, an acknowledgement completes only the head of the queue and only when "
+            "type and id match, a send returns Ok only through its completed channel, a mismatch ends the connection "
+            "and fails every pending send, a well-behaved peer never causes a close and every send completes. Tied "
+            "to the real sink by the same operation lists.", "section 5, C06"),
+    "C14": ("Coq theorems (Props/C14.v, 5) on the sink model: each release of a QoS 2 receipt (explicit or by drop) "
+            "writes exactly one PUBREL with its own id, waits on the channel of its own id, leaves every other task "
+            "and channel untouched, and completes on its own PUBCOMP; one recorded leniency (PUBCOMP before PUBREL is "
+            "accepted). Tied to the real sink by QoS 2 orderings and random operation lists.", "section 5, C14"),
     "C04": ("Coq theorem over all well-formed histories and every wrapping base value: what the response queue has "
             "written is exactly the responses of the longest completed prefix of requests in arrival order (none "
             "lost, none duplicated, none out of order); after a handler error still a prefix. The model of "
